@@ -15,7 +15,7 @@ import (
 	"verif/harness/internal/ref/txref"
 )
 
-const ruleC33 = "a publisher chain of 3-10 blocks (built by injecting valid spends and publishing at generated times) and a delivery plan of 2-14 GiveBlocks messages for a fresh follower: each message carries 1-5 blocks in ascending order taken from the publisher chain with generated gaps, overlaps, duplicates of earlier messages and omissions, the message order is a generated permutation, and forged blocks are interleaved (unsigned, signed by another key, publisher-signed fork from an earlier head, re-signed header mutation by another key, body swapped under a genuine header); messages are processed by the real GiveBlocksMessage.process on a recording daemon over a real visor; afterwards an honest peer answers the follower's recorded GetBlocks requests from the set of blocks that were given; oracle: after every message the follower's chain equals the sequential reference model and is a prefix of the publisher's chain block for block, every stored block verifies under the publisher key, whenever blocks were added an AnnounceBlocks(head) and a GetBlocks(head, n) were emitted, and after the honest answers the follower holds exactly the longest gap-free prefix of the given blocks; non-trivial = the plan delivers out of order across messages or contains a forged block, and the follower ends above genesis; distinct by plan"
+const ruleC33 = "a publisher chain of 3-10 blocks (built by injecting valid spends and publishing at generated times) and a delivery plan of 2-14 GiveBlocks messages for a fresh receiving node (an ordinary follower, or 1 in 3 a node in publisher mode on the same chain): each message carries 1-5 blocks in ascending order taken from the publisher chain with generated gaps, overlaps, duplicates of earlier messages and omissions, the message order is a generated permutation, and forged blocks are interleaved (unsigned, signed by another key, publisher-signed fork from an earlier head, re-signed header mutation by another key, body swapped under a genuine header); messages are processed by the real GiveBlocksMessage.process on a recording daemon over a real visor; afterwards an honest peer answers the follower's recorded GetBlocks requests from the set of blocks that were given; oracle: after every message the follower's chain equals the sequential reference model and is a prefix of the publisher's chain block for block, every stored block verifies under the publisher key, whenever blocks were added an AnnounceBlocks(head) and a GetBlocks(head, n) were emitted, and after the honest answers the follower holds exactly the longest gap-free prefix of the given blocks; non-trivial = the plan delivers out of order across messages or contains a forged block, and the follower ends above genesis; distinct by plan"
 
 func TestC33_Sync(t *testing.T) {
 	r := ev.Get("C33")
@@ -27,6 +27,16 @@ func TestC33_Sync(t *testing.T) {
 		w := newWorld(t, cfg)
 		defer w.destroy()
 		pub, fol := w.nodes[0], w.nodes[1]
+		// the receiving node is an ordinary follower or (1 in 3) a node running in publisher mode on the same chain
+		// (a second or restarted publisher instance): it must be just as strict about whose blocks it appends
+		recvPublisherMode := rapid.IntRange(0, 2).Draw(t, "recvmode") == 0
+		if recvPublisherMode {
+			fol.close()
+			fol.cfg.IsBlockPublisher, fol.cfg.Arbitrating, fol.cfg.BlockchainSeckey = true, true, publisherKey.Sec
+			fol.publisher = true
+			fol.open(t)
+			r.Count("receiver_in_publisher_mode")
+		}
 		// --- build the publisher chain
 		want := rapid.IntRange(3, 10).Draw(t, "chainlen")
 		for tries := 0; len(w.published)-1 < want && tries < want*6; tries++ {
@@ -158,7 +168,7 @@ func TestC33_Sync(t *testing.T) {
 				if blocks[i].Head.BkSeq <= before {
 					continue
 				}
-				if ok, _ := fol.m.CheckBlock(&blocks[i]); !ok {
+				if ok, _ := w.expectAccept(fol, &blocks[i]); !ok {
 					break
 				}
 				fol.m.Apply(blocks[i])
